@@ -223,6 +223,47 @@ func c15SessionSpec(kind string, n int) (gen func(i int) (string, string), count
 	panic("c15: session kind " + kind)
 }
 
+// c15Companion: one program text holds a small definition and, after it on the same line, the definition whose size
+// crosses a limit (processInput compiles and runs the statements of an input one after the other). Whether the large
+// one is accepted or refused, the small one and everything defined afterwards must work.
+func c15Companion(kind string, n int) (sig, detail string, refusedAt, executed int) {
+	g, _ := c15SessionSpec(kind, n)
+	big, _ := g(0)
+	s := impl.NewSession()
+	refusedAt = -1
+	run := func(src string) (string, string) {
+		out, pan := captureReport(func() { node.VerifProcessInput(src, parser.Type{}, s.VM, true) })
+		executed++
+		return out, pan
+	}
+	// (two statements are only accepted in one input when they stand on the same line; the documented grammar wants a
+	// line break between statements, which the read-eval loop turns into two inputs)
+	out, pan := run("keep = () -> \"hello\" " + big)
+	what := fmt.Sprintf("`keep = () -> \"hello\"` and, on the same line, a %s definition of size %d", kind, n)
+	if pan != "" {
+		return "size-limit-host-panic", what + ": the interpreter aborted: " + pan, refusedAt, executed
+	}
+	switch {
+	case out == "> function\n> function\n":
+	case strings.HasPrefix(out, "> function\nCompile error"):
+		refusedAt = 0
+	case strings.HasPrefix(out, "Parser:"):
+		return "", "", -2, executed // not accepted as one input: nothing to check
+	default:
+		return "size-limit-wrong-result", what + fmt.Sprintf(": output %q, expected two definitions or one definition and a refusal", clipStr(out, 300)), refusedAt, executed
+	}
+	for i, st := range [][2]string{{"keep()", "> \"hello\"\n"}, {"other = () -> \"bye\"", "> function\n"}, {"keep()", "> \"hello\"\n"}, {"other()", "> \"bye\"\n"}, {"1 + 1", "> 2\n"}} {
+		o, pan := run(st[0])
+		if pan != "" {
+			return "size-limit-host-panic", fmt.Sprintf("%s, then statement %d `%s`: the interpreter aborted: %s", what, i, st[0], pan), refusedAt, executed
+		}
+		if o != st[1] {
+			return "size-limit-corrupts-session", fmt.Sprintf("%s (refused: %v), then `%s`: output %q, expected %q", what, refusedAt == 0, st[0], clipStr(o, 200), st[1]), refusedAt, executed
+		}
+	}
+	return "", "", refusedAt, executed
+}
+
 func c15Exec(payload string) (string, string) {
 	impl.Init()
 	var p struct {
@@ -246,6 +287,10 @@ func c15Exec(payload string) (string, string) {
 		s, d, _ := c15Function(p.Entry, p.Params, p.Locals)
 		return s, d
 	}
+	if strings.HasPrefix(p.Kind, "after-companion:") {
+		s, d, _, _ := c15Companion(strings.TrimPrefix(p.Kind, "after-companion:"), p.N)
+		return s, d
+	}
 	g, cnt := c15SessionSpec(p.Kind, p.N)
 	s, d, _, _ := c15RunSession(g, cnt)
 	return s, d
@@ -256,7 +301,7 @@ func init() {
 		ID:    "C15",
 		Level: "exploration",
 		Rule: "(i) every EncodeSrc(sel 0..2, kind 0..7, addr -65540..65540) and every New(op) for all 128 opcode values combined with every operand-kind triple and boundary address triple: decode(encode(x)) == x without touching other fields, or the encoder refuses; (ii) NewFunction/ToFunction over boundary entry points and counts; " +
-			"(iii) size-crossing sessions on the real processInput path: one/two/three constants or one name reference per statement for every session length up to 33000 (quick) / 66000 (thorough) with every statement's echo checked, and function/if/while/for bodies, parameter lists and local counts of 2^15-2..2^15+2 (thorough: also 2^16-2..2^16+2): each statement must give its value or be refused with an error that leaves code and data untouched. distinct = distinct tuple / (session kind, size); non-trivial = tuples with a non-zero address or count and all sessions",
+			"(iii) size-crossing sessions on the real processInput path: one/two/three constants or one name reference per statement for every session length up to 33000 (quick) / 66000 (thorough) with every statement's echo checked, and function/if/while/for bodies, parameter lists and local counts of 2^15-2..2^15+2 (thorough: also 2^16-2..2^16+2), alone and as the second statement of an input whose first statement is a small definition: each statement must give its value or be refused with an error that leaves code and data untouched. distinct = distinct tuple / (session kind, size); non-trivial = tuples with a non-zero address or count and all sessions",
 		Assumptions: []string{
 			"a refusal is recognised as output whose first line contains 'error', is not an echo and not a runtime error report, with code and data segment lengths unchanged",
 			"sizes beyond 2^16+2 are not covered",
@@ -374,14 +419,25 @@ func c15Run(w *core.W) {
 			jobs = append(jobs, job{k, n})
 		}
 	}
+	for _, k := range []string{"fn-body", "if-body", "while-body", "params"} {
+		for _, n := range sizes {
+			jobs = append(jobs, job{"after-companion:" + k, n})
+		}
+	}
 	for _, j := range jobs {
 		b, _ := json.Marshal(c15Session{j.kind, j.n})
 		if !w.Mine(string(b)) {
 			continue
 		}
 		w.NonTrivial()
-		g, cnt := c15SessionSpec(j.kind, j.n)
-		sig, detail, refusedAt, executed := c15RunSession(g, cnt)
+		var sig, detail string
+		var refusedAt, executed int
+		if strings.HasPrefix(j.kind, "after-companion:") {
+			sig, detail, refusedAt, executed = c15Companion(strings.TrimPrefix(j.kind, "after-companion:"), j.n)
+		} else {
+			g, cnt := c15SessionSpec(j.kind, j.n)
+			sig, detail, refusedAt, executed = c15RunSession(g, cnt)
+		}
 		w.Evals(int64(executed))
 		w.Count("session_statements_executed", int64(executed))
 		if refusedAt >= 0 {
